@@ -422,3 +422,41 @@ def f(self, group):
         return self.a(group)
     return self.b(group)
 """, ref_funcs={"f"}, ref_consts=set())
+# table dispatch
+same("""
+def f(p):
+    t = p.which("value")
+    imp = {"a": int, "b": float, "c": lambda v: conv(v)}.get(t, None)
+    if imp is None:
+        raise ValueError(t)
+    return imp(getattr(p, t))
+""", """
+def f(p):
+    t = p.which("value")
+    if t == "a":
+        return int(p.a)
+    if t == "b":
+        return float(p.b)
+    if t == "c":
+        return conv(p.c)
+    raise ValueError(t)
+""", ref_funcs={"f"}, ref_consts=set())
+# sinking
+same("""
+def f(self, attr):
+    if isinstance(attr, O):
+        section, exported = (self.inp.opts, export_options(attr))
+    elif is_an(attr):
+        section, exported = (self.inp.an, self.export_analysis(attr))
+    else:
+        raise TypeError
+    section.append(exported)
+""", """
+def f(self, attr):
+    if isinstance(attr, O):
+        self.inp.opts.append(export_options(attr))
+    elif is_an(attr):
+        self.inp.an.append(self.export_analysis(attr))
+    else:
+        raise TypeError
+""", ref_funcs={"f"}, ref_consts=set())
